@@ -15,7 +15,7 @@ ALL_INV = ["TypeOK", "Sound_C01", "Sound_C02", "Sound_C03", "Sound_C04", "Sound_
 # per property: pair-focus dimensions (quick), option sets
 CFG = {
     "C01": dict(focus=["qsig", "ak", "bind", "qeSigner", "authLen", "extra", "leafId"], optset="levels", now=["set"]),
-    "C02": dict(focus=["leafPki", "interPki", "rootPki", "pool", "leafRole", "interSlot", "src"], optset="levels", now=["set"]),
+    "C02": dict(focus=["leafPki", "interPki", "rootPki", "pool", "leafRole", "interSlot", "src", "rotVia"], optset="levels", now=["set"]),
     "C03": dict(focus=["tcbSigner", "tcbOver", "tcbExtra", "tcbHdr", "tcbMeta", "tcbContent", "modBranch",
                        "qeSignerDoc", "qeOver", "qeExtra", "qeHdr", "qeMeta", "qeContent", "sharedSigner"], optset="levels", now=["set"]),
     "C04": dict(focus=["tcbContent", "modBranch", "tcbExtra"], optset="levels", now=["set"]),
@@ -166,7 +166,7 @@ def run(prop, tier, judge_prop=None, level="model_checking", extra_cov=None, cas
     r.cases = rx.cases
     if not r.cases:
         raise C.Infra("no cases exported")
-    zero = [a for a in r.coverage_zero if a in ("CheckQuote", "ExtractChain", "ExtractCa", "FetchTcbInfo", "FetchQeIdentity", "FetchPckCrl", "FetchRootCrl",
+    zero = [a for a in r.coverage_zero if a in ("RootOfTrust", "CheckQuote", "ExtractChain", "ExtractCa", "FetchTcbInfo", "FetchQeIdentity", "FetchPckCrl", "FetchRootCrl",
                                                  "VerifyChain", "VerifyCollateral", "VerifyTcbInfo", "VerifyQeIdentity", "VerifyQuote", "Accept")]
     if zero:
         raise C.Infra("vacuity gate: actions never taken in the model: %s" % zero)
